@@ -7,7 +7,7 @@
    another user's tokens additionally requires the administrator's own session to carry a
    hardware-token factor.  Automation certificates can be minted only by an administrator or
    automation administrator and only for configured automation identities. *)
-From KM Require Import Base.Bytes Base.Tactics Model.Auth Model.AuthGate Model.Routes Model.Authz Model.AdminCache Proofs.Authz Proofs.AdminCache Proofs.AuthzGate Proofs.AuthzObs Proofs.AuthzIdentity.
+From KM Require Import Base.Bytes Base.Tactics Model.Auth Model.AuthGate Model.Routes Model.Authz Model.AdminCache Proofs.Authz Proofs.AdminCache Proofs.AuthzGate Proofs.AuthzObs Proofs.AuthzIdentity Proofs.AuthzRefresh.
 Import ListNotations.
 
 (* every authorization test: allowed means own data, or administrator (and a U2F session
@@ -303,6 +303,66 @@ Theorem c08_obs_cell_is_spec : forall c us s r obs s',
                           ok_allowed_P c r actor level)).
 Proof. exact cell_violating_false_iff. Qed.
 
+(* The SECOND endpoint that issues role-requesting certificates, /v1/refreshRoleRequestingCert (renewal by the
+   holder; Model/Authz.v refresh_step).  For every configuration, stored profiles and request — any credential,
+   any form: [r_target r] is the form's "identity" value (absent, the holder's own name, another configured
+   automation identity by name or by group, an administrator's or automation administrator's name, an unknown
+   name), it does not occur in the conclusion — a 2xx means: the request was authenticated by an IP-restricted
+   certificate (no session, no keymaster user certificate), the issued certificate names the CN of that
+   certificate (= the authenticated actor), that CN is a non-empty configured automation identity, the
+   request was a POST, and no stored profile changed. *)
+Theorem c08_refresh_identity_is_own : forall c s r,
+  snd (fst (refresh_step c s r)) = ROk ->
+  exists actor,
+    resolve c (r_cred r) = IPCert actor /\
+    authenticate_ip refresh_required (resolve c (r_cred r)) = Some (actor, bIPCert) /\
+    snd (refresh_step c s r) = Some actor /\
+    actor <> [] /\
+    is_automation_identity c actor (r_dir_target r) /\
+    r_post r = true /\
+    fst (fst (refresh_step c s r)) = s.
+Proof. exact refresh_identity_is_own. Qed.
+
+(* "Automation certificates can be minted only by an administrator or automation administrator", over BOTH
+   endpoints: a role-requesting certificate for identity B issued by either path ([rolecert_issue]) went to an
+   administrator / automation administrator asking for the configured automation identity B (minting endpoint),
+   or to the holder of a valid IP-restricted certificate for B itself (refresh endpoint: B = actor, a renewal
+   by the holder, never a certificate for somebody else); the store is unchanged either way. *)
+Theorem c08_rolecert_any_path : forall p c s r s' B,
+  (p = ViaMint -> r_op r = RoleCert) ->
+  rolecert_issue p c s r = (s', ROk, Some B) ->
+  s' = s /\
+  ((p = ViaMint /\ B = r_target r /\
+    exists actor level,
+      authenticate (required_for c RoleCert) (resolve c (r_cred r)) = Some (actor, level) /\
+      (r_adm r = true \/ In actor (automation_admins c)) /\
+      is_automation_identity c B (r_dir_target r)) \/
+   (p = ViaRefresh /\ resolve c (r_cred r) = IPCert B /\
+    authenticate_ip refresh_required (resolve c (r_cred r)) = Some (B, bIPCert) /\
+    is_automation_identity c B (r_dir_target r))).
+Proof. exact rolecert_any_path. Qed.
+
+(* a refresh endpoint that takes the identity from the form when there is one ([refresh_honours_form], NOT the
+   server's code) violates the statement: automation identity role1 — neither administrator nor automation
+   administrator — presents its own certificate and obtains a certificate for role2; the server's function
+   gives it role1 on the same request *)
+Theorem c08_refresh_form_identity_refuted :
+  exists c s r actor B,
+    resolve c (r_cred r) = IPCert actor /\ r_adm r = false /\ ~ In actor (automation_admins c) /\ ~ In actor (admin_users c) /\
+    B <> actor /\
+    refresh_honours_form c s r = (s, ROk, Some B) /\
+    refresh_step c s r = (s, ROk, Some actor).
+Proof. exact refresh_form_identity_refuted. Qed.
+
+(* the predicate on the OBSERVATION of a refresh cell (response class, CN of the returned certificate, rows
+   afterwards): off exactly when no row differs and a success is "the holder of the presented IP-restricted
+   certificate got a certificate for its own CN" — the conclusion of c08_refresh_identity_is_own *)
+Theorem c08_obs_refresh_cell_is_spec : forall c us s r obs issued s',
+  refresh_cell_violating c us s r obs issued s' = false <->
+  ((forall v, In v us -> oprofile_eqb (find s v) (find s' v) = true) /\
+   (obs = ROk -> exists actor, resolve c (r_cred r) = IPCert actor /\ issued = Some actor)).
+Proof. exact refresh_cell_violating_false_iff. Qed.
+
 (* ---- non-vacuity ---- *)
 
 Definition u_alice : name := [97; 108; 105; 99; 101]%N.      (* "alice" *)
@@ -402,3 +462,15 @@ Example ex_roles_separate :
   ranswers_shared five_minutes (Some []) (map (role_query ex_cfg) [ex_rq KAutoAdmin 10; ex_rq KAdmin 20])
   = [true; true].
 Proof. vm_compute. split; reflexivity. Qed.
+
+(* the refresh endpoint: the holder renews its own certificate, whatever the form names; a session, a keymaster
+   user certificate and no credential are refused *)
+Example ex_refresh_own_whatever_form :
+  refresh_step rf_cfg [] (rf_req []) = ([], ROk, Some rf_role1) /\
+  refresh_step rf_cfg [] (rf_req rf_role2) = ([], ROk, Some rf_role1) /\
+  refresh_step rf_cfg [] (rf_req u_admin) = ([], ROk, Some rf_role1) /\
+  snd (fst (refresh_step rf_cfg [] {| r_cred := Session rf_role1 (N.lor bPassword bU2F); r_post := true; r_op := RoleCert; r_target := rf_role2;
+        r_index := None; r_name := 0; r_proof := PGood; r_adm := false; r_dir_target := Some []; r_params_ok := true |})) = RDenied /\
+  snd (fst (refresh_step rf_cfg [] {| r_cred := KMCert u_admin; r_post := true; r_op := RoleCert; r_target := rf_role2;
+        r_index := None; r_name := 0; r_proof := PGood; r_adm := true; r_dir_target := Some []; r_params_ok := true |})) = RDenied.
+Proof. vm_compute. repeat split. Qed.
